@@ -179,7 +179,7 @@ Inductive lcase : Type :=
 (* a sequence of solve_t calls on one linker: final state (log = all events in order) and the outcome of every call *)
 | CHistory (ss : subscripts) (hs : lscripts) (calls : list (option (list sid) * fopts * Z)) (s : flstate)
            (xs : flstate) (xouts : list lout)
-| CCtor (subs : list (sid * subinfo)) (span : option pspan) (xr : outcome (pspan * Z * Z))
+| CCtor (name : sid) (subs : list (sid * subinfo)) (span : option pspan) (xr : outcome (pspan * Z * Z))
 (* the same scripted model once wrapped in a linker and once solved directly *)
 | CTwin (ss : subscripts) (sel : option (list sid)) (o : fopts) (t : Z) (s : flstate) (xs : flstate) (xo : lout)
         (m : tcase).
@@ -194,7 +194,7 @@ Definition check_lcase (c : lcase) : bool :=
       let '(s', r) := f_linker_solve_span ss hs sel o labels start end_ s in lstate_eqb s' xs && span_res_eqb r xr
   | CHistory ss hs calls s xs xouts =>
       let '(s', outs) := f_linker_history ss hs calls s [] in lstate_eqb s' xs && list_eqb lout_eqb outs xouts
-  | CCtor subs span xr => ctor_res_eqb (linker_ctor_M subs span) xr
+  | CCtor name subs span xr => ctor_res_eqb (linker_init_M name subs span) xr
   | CTwin ss sel o t s xs xo m =>
       (let '(s', r) := f_linker_solve_t ss [] sel o t s in lstate_eqb s' xs && lout_eqb r xo)
       && check_tcase m
